@@ -68,21 +68,20 @@ impl<'a> Display<'a> {
         }
 
         let dot = if it.peek().is_some() {
-            true
+            // Whole digits are cut off, which only matters if any of them or
+            // anything of the fraction is non-zero.
+            it.clone().any(|d| d != '0') || !rem.is_zero()
         } else {
             let remaining = self.spec.limit - used;
 
             if remaining > 0 {
-                let mut it = emit(&mut rem, den);
-
-                for d in (&mut it).take(remaining) {
+                for d in emit(&mut rem, den).take(remaining) {
                     fmt::Display::fmt(&d, f)?;
                 }
-
-                it.next().is_some()
-            } else {
-                false
             }
+
+            // Whatever is left of the fraction has been cut off.
+            !rem.is_zero()
         };
 
         if dot && self.spec.show_continuation {
